@@ -1,3 +1,9 @@
--- This module serves as the root of the `Setec` library.
--- Import modules here that should be built as part of the library.
-import Setec.Basic
+-- Root of the `Setec` library: every property file (and through them models and proofs).
+import Setec.Properties.C01
+import Setec.Properties.C02
+import Setec.Properties.C03
+import Setec.Properties.C04
+import Setec.Properties.C05
+import Setec.Properties.C06
+import Setec.Properties.C07
+import Setec.Properties.C09
